@@ -187,6 +187,59 @@ func VH_C05_round(m, kinds, maxN, maxK, idxBits int) {
 	verif.Cover("end")
 }
 
+// VH_C05_split: the proposal-size cut inside proposeBatch. One replication
+// message carries an arbitrary command, a put with a 300 KiB value (so the
+// accumulated sequence crosses desiredProposalSize there) and another
+// small put; the follower must apply each command exactly once
+// although the message is split into two proposals.
+func VH_C05_split(kinds int) {
+	lf := fsm.VHNewFSM(nil)
+	_, _ = fsm.VHLoadState(lf, 0, 1, -1)
+	_, L, _ := fsm.VHSummary(lf)
+	verif.Assume(L >= 1 && L < 64)
+	leader := &vhLeader{f: lf, log: logreader.VHNewLog(L), applied: L}
+	nh := verif.NewNodeHost()
+	ff := fsm.VHNewFSM(nil)
+	for _, kv := range fsm.VHContent(lf) {
+		fsm.VHPut(ff, kv.Key, kv.Value)
+	}
+	fsm.VHSetIndexes(ff, 7, L)
+	verif.StartShard(nh, 10001, 100, ff)
+	eng := storage.VHEngine(nh, nil, 1)
+
+	big := make([]byte, 300<<10)
+	big[0] = verif.Byte()
+	cmds := []*regattapb.Command{
+		fsm.VHArbCommand(kinds, 1),
+		{Table: []byte("t"), Type: regattapb.Command_PUT, Kv: &regattapb.KeyValue{Key: verif.Bytes(1), Value: big}},
+		{Table: []byte("t"), Type: regattapb.Command_PUT, Kv: &regattapb.KeyValue{Key: verif.Bytes(1), Value: verif.Bytes(1)}},
+	}
+	for _, c := range cmds {
+		b, err := c.MarshalVT()
+		if err != nil {
+			panic(err)
+		}
+		_, err = leader.SyncPropose(context.Background(), nil, b)
+		verif.Assert(err == nil, "leader applies the command")
+	}
+	srv := regattaserver.NewLogServer(leader, &logreader.Simple{LogQuerier: leader.log}, zap.NewNop(), 0)
+	w := &worker{
+		workerFactory: &workerFactory{engine: eng, logClient: &vhLogClient{srv: srv}, logTimeout: time.Minute, log: zap.NewNop().Sugar()},
+		table:         "t",
+		log:           zap.NewNop().Sugar(),
+	}
+	w.metrics.replicationLeaderIndex, w.metrics.replicationFollowerIndex, w.metrics.replicationLeased = vhGauge(), vhGauge(), vhGauge()
+	res, err := w.do(L, eng.GetNoOPSession(10001))
+	verif.Assert(err == nil, "the round succeeds")
+	if res == resultUnknown {
+		return // the stream deadline passed on the server (covered by VH_C05_round)
+	}
+	_, _, fLeaderIdx := fsm.VHSummary(ff)
+	verif.Assert(fLeaderIdx == leader.applied, "a completed round leaves the follower at the leader's applied index")
+	vhSameContent(fsm.VHContent(ff), fsm.VHContent(lf), "split message: follower content == leader content")
+	verif.Cover("end")
+}
+
 func VH_C05_vacuity() {
 	lf := fsm.VHNewFSM(nil)
 	fsm.VHSetIndexes(lf, 5, 0)
